@@ -33,9 +33,15 @@ fn main() {
     if prop == "C08-child" {
         c08::child(std::path::Path::new(&std::env::args().nth(2).expect("dir")));
     }
-    let seed = seed();
     let thorough = tier_is_thorough();
     let out = out_dir(&prop);
+    let in_shard = std::env::var("HX_SHARD").is_ok();
+    if thorough && !in_shard && std::env::var("HX_REPLAY").is_err() && env_u64("HX_SHARDS", 16) > 1 {
+        run_sharded(&prop, &out);
+        return;
+    }
+    // a shard explores its own part of the seed space
+    let seed = if in_shard { seed().wrapping_mul(1_000_003).wrapping_add(env_u64("HX_SHARD", 0) + 1) } else { seed() };
     for e in fs::read_dir(&out).unwrap().flatten() {
         let n = e.file_name().to_string_lossy().to_string();
         if n.starts_with("cases_") || n == "summary.json" {
@@ -90,4 +96,111 @@ fn main() {
     });
     fs::write(out.join("summary.json"), serde_json::to_string_pretty(&summary).unwrap()).unwrap();
     println!("hx-chain {}: {} evaluations, {} implementation-side violations", prop, s.evaluations, s.viol.len());
+}
+
+/// Every node of a process leaves threads and caches behind that only the
+/// process-wide exit signal would stop (the header map's sled instance and its
+/// memory-limit task), so a thorough run, which opens thousands of nodes, is
+/// split over child processes; their case files and summaries are merged here.
+fn run_sharded(prop: &str, out: &std::path::Path) {
+    let n = env_u64("HX_SHARDS", 16);
+    let par = env_u64("HX_SHARD_PAR", 4).max(1) as usize;
+    for e in fs::read_dir(out).unwrap().flatten() {
+        let name = e.file_name().to_string_lossy().to_string();
+        if name.starts_with("cases_") || name == "summary.json" {
+            let _ = fs::remove_file(e.path());
+        }
+    }
+    let shards_dir = out.join("shards");
+    let _ = fs::remove_dir_all(&shards_dir);
+    let exe = std::env::current_exe().expect("current exe");
+    let mut pending: Vec<u64> = (0..n).rev().collect();
+    let mut running: Vec<(u64, std::process::Child)> = vec![];
+    let mut failed: Vec<String> = vec![];
+    while !pending.is_empty() || !running.is_empty() {
+        while running.len() < par && !pending.is_empty() {
+            let i = pending.pop().unwrap();
+            let dir = shards_dir.join(format!("{i:02}"));
+            fs::create_dir_all(&dir).unwrap();
+            let child = std::process::Command::new(&exe)
+                .arg(prop)
+                .env("HX_SHARD", i.to_string())
+                .env("HX_NSHARDS", n.to_string())
+                .env("HX_OUT", &dir)
+                .stdout(std::process::Stdio::null())
+                .spawn()
+                .expect("spawn shard");
+            running.push((i, child));
+        }
+        let mut k = 0;
+        while k < running.len() {
+            match running[k].1.try_wait().expect("wait") {
+                Some(st) => {
+                    if !st.success() {
+                        failed.push(format!("shard {} ended with {st}", running[k].0));
+                    }
+                    running.remove(k);
+                }
+                None => k += 1,
+            }
+        }
+        std::thread::sleep(std::time::Duration::from_millis(200));
+    }
+    let mut evaluations = 0u64;
+    let mut distinct = 0u64;
+    let mut stats: BTreeMap<String, u64> = BTreeMap::new();
+    let mut samples: Vec<Value> = vec![];
+    let mut viol: Vec<Value> = vec![];
+    let mut rule = Value::Null;
+    for i in 0..n {
+        let d = shards_dir.join(format!("{i:02}")).join(prop);
+        let sp = d.join("summary.json");
+        let Ok(txt) = fs::read_to_string(&sp) else {
+            failed.push(format!("shard {i} wrote no summary"));
+            continue;
+        };
+        let s: Value = serde_json::from_str(&txt).expect("summary");
+        evaluations += s["evaluations"].as_u64().unwrap_or(0);
+        distinct += s["distinct_nontrivial"].as_u64().unwrap_or(0);
+        if let Some(m) = s["distribution"].as_object() {
+            for (k, v) in m {
+                *stats.entry(k.clone()).or_insert(0) += v.as_u64().unwrap_or(0);
+            }
+        }
+        if let Some(a) = s["samples"].as_array() {
+            for x in a {
+                if samples.len() < 8 {
+                    samples.push(x.clone());
+                }
+            }
+        }
+        if let Some(a) = s["impl_violations"].as_array() {
+            for x in a {
+                let mut x = x.clone();
+                x["shard"] = json!(i);
+                x["shard_seed_env"] = json!(format!("HX_SHARD={i} HX_NSHARDS={n}"));
+                viol.push(x);
+            }
+        }
+        rule = s["rule"].clone();
+        for e in fs::read_dir(&d).unwrap().flatten() {
+            let name = e.file_name().to_string_lossy().to_string();
+            if let Some(rest) = name.strip_prefix("cases_") {
+                fs::rename(e.path(), out.join(format!("cases_s{i:02}_{rest}"))).unwrap();
+            }
+        }
+    }
+    let _ = fs::remove_dir_all(&shards_dir);
+    let summary = json!({
+        "property": prop, "seed": seed(), "shards": n,
+        "evaluations": evaluations, "distinct_nontrivial": distinct,
+        "rule": rule, "distribution": stats, "samples": samples,
+        "impl_violations": viol,
+    });
+    fs::write(out.join("summary.json"), serde_json::to_string_pretty(&summary).unwrap()).unwrap();
+    println!("hx-chain {prop}: {evaluations} evaluations in {n} shards, {} implementation-side violations", viol.len());
+    if !failed.is_empty() {
+        eprintln!("hx-chain {prop}: {}", failed.join("; "));
+        std::process::exit(3);
+    }
 }
